@@ -110,6 +110,8 @@ class NumberExpr(number_expr.NumberExpr, internal.RWValue[decimal.Decimal]):
         self._number_add_expr = add_expr
 
     def _iaddsub(self: 'NumberExpr', other: 'NumberExpr', op: Literal['+', '-']) -> 'NumberExpr':
+        if other is self:
+            other = copy.deepcopy(other)  # `x += x`: the operand cannot be consumed and extended at the same time
         _check_free(other)
         mul_expr = _as_mul_expr(other)
         add_op = AddOp.from_raw_text(op)
@@ -188,6 +190,8 @@ class NumberExpr(number_expr.NumberExpr, internal.RWValue[decimal.Decimal]):
         return other - self
 
     def _imuldiv(self: 'NumberExpr', other: 'NumberExpr', op: Literal['*', '/']) -> 'NumberExpr':
+        if other is self:
+            other = copy.deepcopy(other)
         _check_free(other)
         self_mul_expr = _as_mul_expr(self)
         atom_expr = _as_atom_expr(other)
